@@ -399,6 +399,19 @@ func c16(c *Ctx) {
 		}
 	}
 
+	// V3b the restored configuration is the stored one: its lists have the stored length (no zero-valued entries in front)
+	if um := c.P.Func("ircserver.(*IRCServer).Unmarshal"); um != nil {
+		inConfig := func(t *types.Slice) bool {
+			n := astx.NamedOf(t.Elem())
+			return n != nil && n.Obj().Pkg() != nil && n.Obj().Pkg().Path() == pathConfig
+		}
+		for fi := range c.closure([]*load.FuncInfo{um}) {
+			if load.ShortPkg(fi.Pkg.PkgPath) == "ircserver" || load.ShortPkg(fi.Pkg.PkgPath) == "config" {
+				c.lengthDiscipline("C16.V3", fi, inConfig, "a replica that restored the configuration from a snapshot uses a different configuration (extra empty operators / services) than the replicas that applied the log")
+			}
+		}
+	}
+
 	// V4 who writes the config
 	allowed := map[string]string{
 		"ircserver.NewIRCServer":           "constructor (default configuration)",
